@@ -8,6 +8,8 @@ for rf in sorted(glob.glob(RES + "/*.json")):
     except Exception:
         continue
     prop, m = r["prop"], os.path.basename(r["dir"])
+    if "/seed2_out/" in r["dir"]:            # second round: m1, m2 -> m3, m4
+        m = "m%d" % (int(m[1:]) + 2)
     src = r["dir"]
     d = os.path.join(DST, "%s-%s" % (prop, m))
     os.makedirs(d, exist_ok=True)
@@ -18,7 +20,7 @@ for rf in sorted(glob.glob(RES + "/*.json")):
     caught = [c["check"] for c in r.get("checks", []) if c["rc"] == 1 and c["violations"] > 0]
     meta = {
         "property": prop,
-        "origin": "written by an independent sub-agent given only the property text and a scratch worktree (no access to /verif)",
+        "origin": "written by an independent sub-agent given only the property text and a scratch worktree (no access to /verif)" + ("; second round: told which mechanisms had been tried before" if "/seed2_out/" in r["dir"] else ""),
         "needs_to_manifest": notes.strip().split("\n\n")[0][:900],
         "verified": {
             "existing_suite_passes_with_patch": bool(r.get("suite_passes")),
